@@ -513,25 +513,50 @@ extern "C" fn retry_on_state(state: c_int, ctx: *mut c_void) {
 /// a TCP client channel created through the C ABI towards a port nobody listens on: the instants of its
 /// connection attempts show the retry strategy it was given
 fn client_retry(sc: &Scenario, sink: &Sink) {
-    unsafe {
-        let rt = runtime();
-        let port = free_port();
-        let (min, max, attempts) = (sc.steps[0].start as u64, sc.steps[0].count as u64, sc.steps[0].timeout as usize);
-        let ctx = Box::leak(Box::new(RetryCtx { t0: Instant::now(), connecting_at: Mutex::new(Vec::new()) }));
-        let l = ffi::ClientStateListener { on_change: Some(retry_on_state), on_destroy: None, ctx: ctx as *mut RetryCtx as *mut c_void };
-        let host = CString::new("127.0.0.1").unwrap();
-        let mut ch: *mut rodbus_ffi::ClientChannel = std::ptr::null_mut();
-        let rc = ffi::rodbus_client_channel_create_tcp(rt, host.as_ptr(), port, 2, ffi::RetryStrategy { min_delay: min, max_delay: max }, decode0(), l, &mut ch);
-        assert_eq!(rc, 0);
-        ffi::rodbus_client_channel_enable(ch);
-        let budget: u64 = (0..attempts as u32).map(|k| std::cmp::min(min << k, max) + 600).sum();
-        wait_for(|| ctx.connecting_at.lock().unwrap().len() >= attempts, budget);
-        let at = ctx.connecting_at.lock().unwrap().clone();
+    let (min, max, attempts) = (sc.steps[0].start as u64, sc.steps[0].count as u64, sc.steps[0].timeout as usize);
+    let want = |k: usize| std::cmp::min(min << k, max);
+    // one measurement: the instants at which the channel reports Connecting towards a port that refuses
+    let measure = || -> Vec<u64> {
+        unsafe {
+            let rt = runtime();
+            let port = free_port();
+            let ctx = Box::leak(Box::new(RetryCtx { t0: Instant::now(), connecting_at: Mutex::new(Vec::new()) }));
+            let l = ffi::ClientStateListener { on_change: Some(retry_on_state), on_destroy: None, ctx: ctx as *mut RetryCtx as *mut c_void };
+            let host = CString::new("127.0.0.1").unwrap();
+            let mut ch: *mut rodbus_ffi::ClientChannel = std::ptr::null_mut();
+            let rc = ffi::rodbus_client_channel_create_tcp(rt, host.as_ptr(), port, 2, ffi::RetryStrategy { min_delay: min, max_delay: max }, decode0(), l, &mut ch);
+            assert_eq!(rc, 0);
+            ffi::rodbus_client_channel_enable(ch);
+            let budget: u64 = (0..attempts).map(|k| want(k) + 1500).sum();
+            wait_for(|| ctx.connecting_at.lock().unwrap().len() >= attempts, budget);
+            let at = ctx.connecting_at.lock().unwrap().clone();
+            ffi::rodbus_client_channel_destroy(ch);
+            ffi::rodbus_runtime_destroy(rt);
+            at
+        }
+    };
+    // A wait can only be observed as long or longer than it was (the timer never fires early, the scheduler may be late):
+    // the lower bound is judged on every observation, the upper bound on the shortest of up to three observations of the
+    // same gap -- a delay that really is too long is too long every time, a late scheduler is not.
+    let mut best: Vec<u64> = Vec::new();
+    let mut seen = 0usize;
+    for _ in 0..3 {
+        let at = measure();
+        seen = std::cmp::max(seen, at.len());
         let gaps: Vec<u64> = at.windows(2).map(|w| w[1] - w[0]).collect();
-        sink.emit(json!({"e":"ffi_retry","min":min,"max":max,"attempts":at.len(),"wanted":attempts,"gaps":gaps}));
-        ffi::rodbus_client_channel_destroy(ch);
-        ffi::rodbus_runtime_destroy(rt);
+        for (k, g) in gaps.iter().enumerate() {
+            if k >= best.len() {
+                best.push(*g);
+            } else {
+                best[k] = std::cmp::min(best[k], *g);
+            }
+        }
+        let settled = seen >= attempts && best.len() + 1 >= attempts && best.iter().enumerate().all(|(k, g)| *g <= want(k) + 250);
+        if settled {
+            break;
+        }
     }
+    sink.emit(json!({"e":"ffi_retry","min":min,"max":max,"attempts":seen,"wanted":attempts,"gaps":best}));
 }
 
 // ------------------------------------------------------------------ RTU channel / server created through the C ABI
